@@ -15,6 +15,9 @@ Tie (route H, every run, `interval` goals regenerated from the REAL implementati
                   adsorption, Henry coefficient, N/p vs the closed forms ig_*;
   * lin_<k>.v     solved pores with real functionals: the returned drho_dmu/drho_dp/drho_dt put back into the operator (hook
                   verif_delta_functional_derivative) vs rhs_mu / rhs_p / code_rhs_t at sampled cells; dn_* = wsum.
+  * seq_<k>.v     sequences of calls on ONE PoreProfile object (solve / update_bulk / specification change / loose, failed and debug
+                  solves): the state machine PoreCacheC19 (invariant proved for every sequence: a stored grand potential / interfacial
+                  tension is that of the current profile and bulk) is run in Coq on the observed sequence and must print the stored fields.
 Direct checks (f64, whole arrays): max |A x - rhs| of every system; LU identity of the enthalpy of adsorption; equal segment integrals.
 Support (labelled partial, never deciding alone): central differences of re-solved profiles (Richardson-extrapolated, tolerance from
   the measured step error) for grand potential vs -N dmu, dn_dmu, dn_dp, dn_dt; N/p at vanishing pressure vs Henry coefficient;
@@ -37,6 +40,10 @@ BRANCH = 0.05                       # |N(+h) + N(-h) - 2 N(0)| / |N(+h) - N(-h)|
                                     # branch (hysteresis / capillary condensation region) -> not decidable, listed
 HENRY_LIMIT_RTOL = 1e-4             # N/p at rho_b = 1e-11 vs Henry coefficient (worst seen 2.6e-6)
 QST_LIMIT_RTOL = 1e-4               # enthalpy of adsorption at rho_b = 1e-11 vs ideal-gas enthalpy of adsorption (worst seen 5e-7)
+CACHE_RTOL = 1e-12                  # stored grand_potential / interfacial_tension vs the value recomputed from the same object (same code, same data: seen 0)
+SEQ_GIBBS_RTOL = 5e-3               # trapezoid rule Omega_b - Omega_a = -(N_a+N_b)/2 (mu_b - mu_a) between solved states of one object (steps <= 6 % in density:
+                                    # error ~ (dln rho)^2/12 <= 3e-4; worst seen 1.1e-4)
+EQUIL_RTOL = 1e-3                   # |Omega_vapour-like - Omega_liquid-like| / |Omega| of the pore phase equilibrium (seen 4.5e-5)
 GAMMA_BOX_RTOL = 2e-5               # surface tension vs box length (60..300 A; 60 A only for T/Tc <= 0.9), worst seen 2e-7
 GAMMA_GRID_RTOL = 1e-4              # surface tension vs grid size 256..4096 on 100 A (worst seen 1e-9 .. 3e-6)
 GAMMA_CRIT_RATIO = 0.12             # gamma(0.95 Tc) / gamma(0.5 Tc) (observed 0.045 propane, 0.053 argon; (1-T/Tc)^1.26 scaling gives 0.055)
@@ -290,6 +297,117 @@ def run(ctx):
     if impl["henry_limits"]:
         samples.append({"henry_limit": impl["henry_limits"][0]})
 
+    # ------------------------------------------------------------------ Part F: call sequences on one object, drivers
+    def close(a, b):
+        return isinstance(a, (int, float)) and isinstance(b, (int, float)) and abs(a - b) <= CACHE_RTOL * max(abs(a), abs(b), 1e-300)
+
+    def dy(v):
+        """coq_parse of `Some (m, e)` / `None` -> float / None"""
+        if v == "None":
+            return None
+        if isinstance(v, tuple) and v[0] == "Some":
+            m, e = v[1]
+            return math.ldexp(float(m), int(e)) if abs(e) < 1000 else float(m) * 2.0 ** e
+        raise ValueError("unexpected cache value %r" % (v,))
+
+    n_seq_steps = 0
+    for c in impl.get("seq_cases", []):
+        key = dict(pore_key(c), ops=c.get("ops"))
+        if c.get("error") or not c.get("file"):
+            undecided.append({"seq_case": key, "error": c.get("error")})
+            continue
+        r = res.get(os.path.join(ctx.gen, c["file"])) or {"rc": 1, "out": "file missing"}
+        steps = c["steps"]
+        obligations += len(steps)
+        model = None
+        if r["rc"] == 0:
+            try:
+                model = [(dy(a), dy(b)) for a, b in V.tagged(r["out"])["SEQ"][0]]
+            except Exception as e:  # noqa
+                model = None
+        if model is None or len(model) != len(steps):
+            V.violation(ctx, "gen/C19/%s: the replay of the call sequence did not evaluate: %s" % (c["file"], V.coq_error(r["out"]) or r["out"][-300:]),
+                        {"broken": "correspondence: PoreCacheC19.replay", "input": key, "coq_error": V.coq_error(r["out"])}, found_input=False)
+            continue
+        bad = []
+        for k, (st, (mo, mg)) in enumerate(zip(steps, model)):
+            n_seq_steps += 1
+            ok = True
+            for field, mv in (("grand_potential", mo), ("interfacial_tension", mg)):
+                sv = st["stored_" + field]
+                if (sv is None) != (mv is None) or (sv is not None and not close(num(sv), mv)):
+                    ok = False
+                    bad.append({"after_call": k, "call": st["op"], "result": st["result"], "field": field, "stored": sv, "model": mv,
+                                "recomputed_from_the_object": st["fresh_" + field], "moles": st["moles"], "rho_b": st["rho_b"]})
+            if ok:
+                discharged += 1
+        if bad:
+            # headline: a solved state that reports a value of another state (the failing input proper), else the first mismatch
+            b0 = next((b for b in bad if b["stored"] is not None and b["model"] is not None), bad[0])
+            V.violation(ctx, "%s: after the calls %s the stored %s is %r, the model (= value recomputed from the current profile and bulk) gives %r"
+                        % (c["name"], [s["op"] for s in steps[:b0["after_call"] + 1]], b0["field"], b0["stored"], b0["model"]),
+                        {"broken": "correspondence: PoreCacheC19 (cache_fresh_always, solve_ok_stores, update_bulk_clears) vs PoreProfile::{solve_inplace, update_bulk} (gen/C19/%s)" % c["file"],
+                         "input": key, "mismatches": bad,
+                         "property_clause": "the grand potential reported for a solved pore is that of its current profile and bulk state; a stale value breaks dOmega/dmu = -N"},
+                        found_input=True)
+        # Gibbs adsorption between the solved states of the object (trapezoid rule; support)
+        # (only states reached by a converged tight solve are equilibrium states; loose / debug solves return Ok without being one)
+        solved = [st for st in steps if st["result"] == "Ok" and st["op"] == 'Solve("tight")' and st["stored_grand_potential"] is not None]
+        for a, b in zip(solved, solved[1:]):
+            dmu = [y - x for x, y in zip(a["mu"], b["mu"])]
+            pred = -sum(0.5 * (na + nb) * d for na, nb, d in zip(a["moles"], b["moles"], dmu))
+            dom = num(b["stored_grand_potential"]) - num(a["stored_grand_potential"])
+            scale = abs(num(a["stored_grand_potential"]))
+            if abs(pred) < 1e-4 * scale:
+                continue    # (nearly) the same bulk state
+            rel = abs(dom / pred - 1.0)
+            fd_cmp += 1
+            note_worst("gibbs_between_states_of_one_object_rel", rel)
+            if not rel <= SEQ_GIBBS_RTOL:
+                V.violation(ctx, "%s: between two solves of one object the reported grand potential changes by %.8e, -N dmu = %.8e" % (c["name"], dom, pred),
+                            {"broken": "support (partial): Gibbs adsorption relation along a continuation on one PoreProfile object", "input": key,
+                             "states": [a, b], "ratio": dom / pred}, found_input=True)
+    if impl.get("seq_cases"):
+        c = impl["seq_cases"][0]
+        samples.append({"call_sequence": {"name": c["name"], "ops": c.get("ops"), "steps": [{k: s[k] for k in ("op", "result", "stored_grand_potential", "fresh_grand_potential")} for s in c.get("steps", [])[:4]]}})
+
+    n_driver_profiles = 0
+    for c in impl.get("driver_cases", []):
+        dkey = {k: c.get(k) for k in ("name", "T", "p_lo", "p_hi", "points", "potential", "pore_size", "grid")}
+        for driver in ("adsorption_isotherm", "desorption_isotherm", "phase_equilibrium", "equilibrium_isotherm"):
+            v = c.get(driver)
+            if v is None:
+                continue
+            if "error" in v:
+                undecided.append({"driver": driver, "input": dkey, "error": v["error"]})
+                continue
+            getter = v.get("grand_potential_getter")
+            for i, pr in enumerate(v["profiles"]):
+                if "error" in pr:
+                    undecided.append({"driver": driver, "input": dkey, "point": i, "error": pr["error"]})
+                    continue
+                n_driver_profiles += 1
+                fd_cmp += 1
+                for field in ("grand_potential", "interfacial_tension"):
+                    sv, fv = pr["stored_" + field], pr["fresh_" + field]
+                    if sv is None or not close(num(sv), num(fv)) or (field == "grand_potential" and getter and not close(num(getter[i]), num(fv))):
+                        V.violation(ctx, "Adsorption::%s (%s), profile %d at p=%.6e: stored %s %r, recomputed from the returned profile %r"
+                                    % (driver, c["name"], i, num(pr["pressure"]), field, sv, fv),
+                                    {"broken": "implementation: a driver returns a PoreProfile whose stored %s is not that of its profile and bulk state (PoreCacheC19.cache_fresh_always)" % field,
+                                     "input": dict(dkey, driver=driver), "profile": i, "values": pr}, found_input=True)
+            if driver == "phase_equilibrium" and len(v["profiles"]) == 2 and all("error" not in pr for pr in v["profiles"]):
+                a, b = v["profiles"]
+                rel = abs(num(a["fresh_grand_potential"]) - num(b["fresh_grand_potential"])) / max(abs(num(a["fresh_grand_potential"])), 1e-300)
+                fd_cmp += 1
+                note_worst("phase_equilibrium_omega_rel_difference", rel)
+                if not rel <= EQUIL_RTOL or not abs(num(a["pressure"]) / num(b["pressure"]) - 1.0) <= 1e-9:
+                    V.violation(ctx, "Adsorption::phase_equilibrium (%s): the two pore phases do not have equal grand potentials at one bulk state: %r vs %r (p %r, %r)"
+                                % (c["name"], a["fresh_grand_potential"], b["fresh_grand_potential"], a["pressure"], b["pressure"]),
+                                {"broken": "support (partial): pore phase equilibrium", "input": dict(dkey, driver=driver), "profiles": v["profiles"]}, found_input=True)
+    if impl.get("driver_cases"):
+        c = impl["driver_cases"][0]
+        samples.append({"driver": {"name": c["name"], "phase_equilibrium": c.get("phase_equilibrium")}})
+
     # ------------------------------------------------------------------ Part E: planar interfaces (support)
     pdgt_seen = {}
     for c in impl["planar"]:
@@ -373,7 +491,7 @@ def run(ctx):
     cov = {
         "obligations": obligations,
         "discharged": discharged,
-        "checker_cmd": "make -C coq (coqc 8.16.1, full .vo) ; coqc coq/gen/C19/{henry_*,ideal_*,lin_*}.v",
+        "checker_cmd": "make -C coq (coqc 8.16.1, full .vo) ; coqc coq/gen/C19/{henry_*,ideal_*,lin_*,seq_*}.v",
         "trusted_base": V.COMMON_TRUSTED + [
             "harness/src/bin/c19.rs: weights through integrate(indicator); right-hand sides rebuilt from public quantities (dual-number functional "
             "derivative through ConvolverFFT::plan, bulk functional derivative from a uniform profile on the same even-extension grid, partial molar volumes, dp/dT); "
@@ -383,14 +501,17 @@ def run(ctx):
         "library_theorems": lib["obligations"],
         "library_files": lib["library_files"],
         "axioms_reported": lib["axioms"],
-        "evaluations": n_henry + n_ideal + n_systems + fd_cmp,
+        "evaluations": n_henry + n_ideal + n_systems + fd_cmp + n_seq_steps,
+        "call_sequences": [{"name": c["name"], "ops": c.get("ops")} for c in impl.get("seq_cases", [])],
+        "call_sequence_states_replayed_in_coq": n_seq_steps, "driver_profiles_checked": n_driver_profiles,
         "henry_cases": n_henry, "ideal_gas_cases": n_ideal, "solved_pores_with_linear_systems": n_lin, "linear_systems": n_systems,
         "support_comparisons": fd_cmp,
         "systems": [pore_key(c) for c in impl["lin_cases"]],
         "henry_systems": [{k: c.get(k) for k in ("name", "potential", "grid", "bonds", "segments")} for c in impl["henry_cases"]],
         "tolerances": {"henry_goal_rel": 1e-11, "qst_goal": "1e-9 (|q| + T)", "ideal_gas_goals_rel": "1e-9 (N, Omega), 1e-8 (dn_*), 1e-7 (enthalpy)",
                        "linear_system": "|A x - rhs| <= %g + %g max|rhs|" % (LIN_ABS, LIN_REL), "dn_goal_rel": 1e-11, "enthalpy_lu_rel": LU_RTOL,
-                       "segment_integrals_rel": SEG_RTOL,
+                       "segment_integrals_rel": SEG_RTOL, "stored_vs_recomputed_rel": CACHE_RTOL, "gibbs_between_states_of_one_object_rel": SEQ_GIBBS_RTOL,
+                       "phase_equilibrium_omega_rel": EQUIL_RTOL,
                        "central_differences": "Richardson (h, h/2; h = 1e-2 relative): |ratio - 1| <= %g + |ratio(h) - ratio(h/2)| + %g * 1e-12 * volume / |difference|; skipped (listed) when |N+ + N- - 2N0| > %g |N+ - N-|" % (FD_FLOOR, FD_NOISE, BRANCH),
                        "henry_limit_rel": HENRY_LIMIT_RTOL, "enthalpy_limit_rel": QST_LIMIT_RTOL,
                        "surface_tension_vs_box_rel": GAMMA_BOX_RTOL, "surface_tension_vs_grid_rel": GAMMA_GRID_RTOL,
@@ -427,6 +548,15 @@ def replay(rp):
         return 0
     ctx = V.Ctx("C19_replay", rp.get("tier", "quick"), rp.get("seed", 1))
     impl = V.run_harness("c19", ctx)
+    for c in impl.get("seq_cases", []):
+        if all(c.get(k) == v for k, v in want.items()):
+            for st in c.get("steps", []):
+                print("now on the implementation: after %-24s (%s): stored Omega %s gamma %s | recomputed Omega %s gamma %s | N %s"
+                      % (st["op"], st["result"], st["stored_grand_potential"], st["stored_interfacial_tension"], st["fresh_grand_potential"],
+                         st["fresh_interfacial_tension"], st["moles"]))
+    for c in impl.get("driver_cases", []):
+        if all(c.get(k) == v for k, v in want.items() if k != "driver"):
+            print("now on the implementation (%s): %s" % (want.get("driver"), json.dumps(c.get(want.get("driver", "phase_equilibrium")))[:3000]))
     for group in ("henry_cases", "ideal_cases", "lin_cases", "henry_limits"):
         for c in impl.get(group, []):
             if all(c.get(k) == v for k, v in want.items()):
